@@ -90,8 +90,12 @@ func PathExists(q PathQuery) (ssa.Instruction, bool) {
 				chains = cs
 			}
 		}
+		start := InstrIndex(q.After) + 1
+		if _, isRet := q.After.(*ssa.Return); isRet && af != fn {
+			start-- // "after" the return of a transparent helper means: back in its caller
+		}
 		for _, ch := range chains {
-			work = append(work, state{b: q.After.Block(), idx: InstrIndex(q.After) + 1, stack: ch})
+			work = append(work, state{b: q.After.Block(), idx: start, stack: ch})
 		}
 	}
 	onStack := func(stack []*ssa.Call, g *ssa.Function) bool {
